@@ -7,11 +7,12 @@
     encStep        one run of the MODEL's loop body as a `Rs.Flow` over the model's own loop state `EncM`;
     enc_loop_sim   for ANY loop body `body : σ → Rs.Flow σ _` and ANY relation `V` between σ and `EncM` that `body` and
                    `encStep` preserve, `Rs.loop body` and `encLoopIO` agree (for fuels above the measure);
-    encV8          the view of the 8 loop variables of `encrypt_chunks` (source, read buffer, done, auth_data, sink, previous
-                   chunk, its length, counter) as an `EncM`, with the buffer-length invariants;
-    enc_body_tac   one run of the generated body against `encStep` under that view (the generated body is unfolded, its
+    encV8, encV7   the views of the loop variables of `encrypt_chunks` (source, read buffer, [done,] auth_data, sink, previous
+                   chunk, its length, counter) as an `EncM`, with the buffer-length invariants (with and without a `done`
+                   flag carried from one iteration to the next);
+    enc_body_core  one run of the generated body against `encStep` under a view (the generated body is unfolded, its
                    helper functions and constants with it; nothing of its text is restated);
-    encrypt_chunks_eq  the function itself: pre-loop code by `simp`, then `enc_loop_sim`.
+    encrypt_chunks_eq  the function itself: pre-loop code by `simp`, then `enc_loop_sim`; the views are tried in turn.
 -/
 import KestrelProofs.StreamSrcCommon
 import KestrelProofs.EncIO
@@ -107,29 +108,37 @@ theorem enc_loop_sim {σ : Type} (A : Aead) (key aad : Bytes) (cs : Nat) (body :
       cases x <;> simp only [EncFlowRel] at h
       simp only [LoopRel, h]
 
-/-! ### the view of the loop variables of `encrypt_chunks` -/
+/-! ### the views of the loop variables of `encrypt_chunks` -/
 
 /-- The 8 variables the loop body of `encrypt_chunks` assigns, in the translator's order (first assignment inside the
     loop): source, read buffer, `done`, `auth_data`, sink, previous chunk buffer, its fill, chunk counter.
     `head` = at the loop head (all invariants) or at a `break` (only source and sink matter afterwards);
-    `strong` = the AAD prefix of `auth_data` is an invariant (it is written before the loop, not in it). -/
+    `strong` = the AAD prefix of `auth_data` is an invariant (it is written before the loop, not in it).
+    Of the previous-chunk buffer only its first `n` bytes are related to the model (`prev.take n = m.prev`); of the rest only
+    the length is known.  That is why it does not matter whether the look-ahead buffer is copied into it or the two buffers
+    are exchanged: the stale bytes beyond `n`, and the stale contents of the read buffer, are not part of the view. -/
 def encV8 (cs : Nat) (aad : Bytes) (strong : Prop) (head : Bool) :
     Src × Bytes × Bool × Bytes × Snk × Bytes × Nat × Nat → EncM → Prop
   | (s, buff, done, auth, k, prev, n, ctr), m =>
     s = m.s ∧ k = m.k ∧ (head = true → ctr = m.ctr ∧ done = m.done ∧ prev.take n = m.prev ∧ n ≤ prev.length ∧
-      buff.length = cs ∧ auth.length = aad.length + 8 ∧ (strong → auth.take aad.length = aad))
+      prev.length = cs ∧ buff.length = cs ∧ auth.length = aad.length + 8 ∧ (strong → auth.take aad.length = aad))
 
- -- (unhygienic on purpose: the macro refers to `cs` and introduces names its caller's context provides / uses)
+/-- The same without a `done` flag among the loop variables: the body recomputes it on every iteration, and at the loop
+    head the model's flag is determined by the fill of the previous chunk (`m.done = (n == 0)`: only an empty first read
+    leaves an empty previous chunk). -/
+def encV7 (cs : Nat) (aad : Bytes) (strong : Prop) (head : Bool) :
+    Src × Bytes × Bytes × Snk × Bytes × Nat × Nat → EncM → Prop
+  | (s, buff, auth, k, prev, n, ctr), m =>
+    s = m.s ∧ k = m.k ∧ (head = true → ctr = m.ctr ∧ m.done = (n == 0) ∧ prev.take n = m.prev ∧ n ≤ prev.length ∧
+      prev.length = cs ∧ buff.length = cs ∧ auth.length = aad.length + 8 ∧ (strong → auth.take aad.length = aad))
+
+ -- (unhygienic on purpose: the macros refer to `cs` and introduce names their caller's context provides / uses)
 set_option hygiene false in
-/-- one run of the generated loop body against `encStep`, under the view `encV8`; the body is never restated -/
-local macro "enc_body_tac" : tactic => `(tactic|
-  (intro st m hV
-   obtain ⟨s, buff, done, auth, k, prev, n, ctr⟩ := st
-   obtain ⟨ms, mk, mctr, mprev, mdone⟩ := m
-   simp only [encV8] at hV
-   obtain ⟨rfl, rfl, hV⟩ := hV
-   obtain ⟨rfl, rfl, rfl, hn, hb, ha, hs⟩ := hV trivial
-   have hpl : (List.take n prev).length = n := by rw [List.length_take]; omega
+/-- one run of the generated loop body against `encStep`; expects `s buff auth k prev n ctr` and `hn hp hb ha hs` in the
+    context (the view-specific part, which destructures the tuple of loop variables, comes before); `$dcase` is the case
+    distinction on the `done` flag at the loop head.  The body is never restated. -/
+local macro "enc_body_core" dcase:tactic : tactic => `(tactic|
+  (have hpl : (List.take n prev).length = n := by rw [List.length_take]; omega
    unfold encrypt.encrypt_chunks.loop1 encStep
    rs_unfold
    simp only [RsIO.read, hb]
@@ -142,8 +151,8 @@ local macro "enc_body_tac" : tactic => `(tactic|
        | simp only [auth_fill' _ _ _ _ ha (be32_length _) (be32_length _)]
        | simp only [auth_fill2' _ _ _ _ ha (hs trivial) (be32_length _) (be32_length _)]
      simp only [be32_truncU32, hpl, Except.mapError]
-     cases done <;> by_cases hr : r.length = 0 <;>
-       simp [hr, writeRecord, RsIO.writeAll, RsIO.flush, encrypt.write_err, EncFlowRel, encV8]
+     $dcase:tactic <;> by_cases hr : r.length = 0 <;>
+       simp [hr, writeRecord, RsIO.writeAll, RsIO.flush, encrypt.write_err, EncFlowRel, encV8, encV7]
      all_goals
        rcases hw1 : Snk.writeAll (Src.pos s', Src.nreads s') _ k (be64 ctr ++ _) with ⟨_ | _, k1⟩
        · simp [EncFlowRel]
@@ -152,22 +161,25 @@ local macro "enc_body_tac" : tactic => `(tactic|
          · simp [EncFlowRel]
          · simp only []
            rcases hf : Snk.flush k2 with ⟨_ | _, k3⟩ <;>
-             simp [hr, EncFlowRel, encV8, take_aad, List.length_append, List.length_drop, be32_length] <;> omega
+             simp [hr, EncFlowRel, encV8, encV7, take_aad, List.length_append, List.length_drop, be32_length] <;> omega
    · simp only [Except.mapError, encrypt.read_err, EncFlowRel]
    · simp only [Except.mapError, encrypt.read_err, EncFlowRel]))
 
 set_option hygiene false in
 /-- `Rs.loop body fuel st0 = x` (hypothesis `hx`, body and initial state as the generated function has them) against
-    `encLoopIO`, through the view `encV8 cs aad $strong`; then the code after the loop -/
-local macro "enc_via" strong:term : tactic => `(tactic|
+    `encLoopIO`, through a view `$V` of the loop variables; `$hbody` proves the simulation of one iteration and `$hfin`
+    reads source and sink off the state at the `break`; then the code after the loop -/
+local macro "enc_via" V:term "," hbody:tactic "," hfin:tactic : tactic => `(tactic|
   (refine no_implicit_lambda%
-     (have hsim : LoopRel (fun st s k => ∃ m', encV8 cs aad $strong false st m' ∧ m'.s = s ∧ m'.k = k) x
+     (have hsim : LoopRel (fun st s k => ∃ m', $V false st m' ∧ m'.s = s ∧ m'.k = k) x
        (encLoopIO A key aad cs (s'.inp.length + s'.script.length + 2) 0 r (r.length == 0) s' k) := ?_; ?_)
    · rw [← hx]
-     refine enc_loop_sim A key aad cs _ (encV8 cs aad $strong) ?_ fuel _ _ ⟨s', k, 0, r, r.length == 0⟩ ?_ ?_ ?_
-     · enc_body_tac
-     · refine ⟨rfl, rfl, fun _ => ⟨rfl, rfl, List.take_left' rfl, ?_, ?_, ?_, fun hstrong => ?_⟩⟩
+     refine enc_loop_sim A key aad cs _ $V ?_ fuel _ _ ⟨s', k, 0, r, r.length == 0⟩ ?_ ?_ ?_
+     · intro st m hV
+       $hbody:tactic
+     · refine ⟨rfl, rfl, fun _ => ⟨rfl, rfl, List.take_left' rfl, ?_, ?_, ?_, ?_, fun hstrong => ?_⟩⟩
        · simp only [List.length_append] <;> omega
+       · simp only [List.length_append, List.length_drop, List.length_replicate] <;> omega
        · simp only [List.length_append, List.length_drop, List.length_replicate] <;> omega
        · simp only [List.length_append, List.length_take, List.length_drop, List.length_replicate, length_copyFromSlice] <;> omega
        · first
@@ -177,13 +189,38 @@ local macro "enc_via" strong:term : tactic => `(tactic|
      · simp only []; omega
    · rcases x with st' | res | _
      · obtain ⟨s1, k1, ⟨m', hV', rfl, rfl⟩, he⟩ := hsim
-       obtain ⟨a1, a2, a3, a4, a5, a6, a7, a8⟩ := st'
-       simp only [encV8] at hV'
-       obtain ⟨rfl, rfl, _⟩ := hV'
-       simp only [he]
+       $hfin:tactic
      · simp only [LoopRel] at hsim
        simp only [hsim]
      · exact hsim.elim))
+
+set_option hygiene false in
+local macro "enc_via8" strong:term : tactic => `(tactic|
+  enc_via (encV8 cs aad $strong),
+    (obtain ⟨s, buff, done, auth, k, prev, n, ctr⟩ := st
+     obtain ⟨ms, mk, mctr, mprev, mdone⟩ := m
+     simp only [encV8] at hV
+     obtain ⟨rfl, rfl, hV⟩ := hV
+     obtain ⟨rfl, rfl, rfl, hn, hp, hb, ha, hs⟩ := hV trivial
+     enc_body_core (cases done)),
+    (obtain ⟨a1, a2, a3, a4, a5, a6, a7, a8⟩ := st'
+     simp only [encV8] at hV'
+     obtain ⟨rfl, rfl, _⟩ := hV'
+     simp only [he]))
+
+set_option hygiene false in
+local macro "enc_via7" strong:term : tactic => `(tactic|
+  enc_via (encV7 cs aad $strong),
+    (obtain ⟨s, buff, auth, k, prev, n, ctr⟩ := st
+     obtain ⟨ms, mk, mctr, mprev, mdone⟩ := m
+     simp only [encV7] at hV
+     obtain ⟨rfl, rfl, hV⟩ := hV
+     obtain ⟨rfl, rfl, rfl, hn, hp, hb, ha, hs⟩ := hV trivial
+     enc_body_core (generalize hd : (n == 0) = d; cases d)),
+    (obtain ⟨a1, a2, a3, a4, a5, a6, a7⟩ := st'
+     simp only [encV7] at hV'
+     obtain ⟨rfl, rfl, _⟩ := hV'
+     simp only [he]))
 
 /-- the translated `encrypt_chunks` is the hand-written I/O-level model, for every fuel at or above the bound -/
 theorem encrypt_chunks_eq (A : Aead) (key aad : Bytes) (cs : Nat) (s : Src) (k : Snk) (fuel : Nat)
@@ -199,8 +236,10 @@ theorem encrypt_chunks_eq (A : Aead) (key aad : Bytes) (cs : Nat) (s : Src) (k :
       rw [hi, hsc, List.length_drop, List.length_append]; omega
     generalize hx : Rs.loop _ fuel _ = x
     first
-      | enc_via False
-      | enc_via True
+      | enc_via8 False
+      | enc_via8 True
+      | enc_via7 False
+      | enc_via7 True
   · simp only [Except.mapError, encrypt.read_err]
   · simp only [Except.mapError, encrypt.read_err]
 
